@@ -32,7 +32,12 @@ def gen_dataset(rng, force=None):
     nrg = force.get("nrg", rng.choice([0, 1, 1, 2, 2, 3, 3, 4, 5, 6]))
     sizes = [rng.choice([1, 1, 2, 3, 4, 5, 8, 13]) for _ in range(nrg)]
     n = sum(sizes)
-    scheme = force.get("scheme", rng.choice(["simple", "simple", "simple", "hive", "hive", "hive", "drill"]))
+    # "multi": single-file parts written one by one into a directory WITHOUT _metadata, each from the frame's columns in its own
+    # order (chunks are identified by path_in_schema, their order within a row group is the writer's business), opened as a
+    # directory or as an explicit list of files
+    scheme = force.get("scheme", rng.choice(["simple", "simple", "simple", "hive", "hive", "hive", "drill", "multi", "multi"]))
+    if scheme == "multi" and nrg == 0:
+        scheme = "simple"
     part = []
     if scheme in ("hive", "drill") and n > 0:
         part = force.get("part", rng.choice([[], ["p"], ["p"], ["p", "q"], ["q"]]))
@@ -82,12 +87,18 @@ def gen_dataset(rng, force=None):
                 fab.append(["empty", rng.randrange(8), rng.randrange(8)])      # (source, insert position) mod current length
             else:
                 fab.append(["dup", rng.randrange(8), rng.randrange(8)])
-    if scheme == "simple":
+    if scheme == "multi":
+        how = rng.choice(["dir", "list", "list"])
+        fab = []
+        if index == "rix":
+            index = None
+    elif scheme == "simple":
         how = rng.choice(["path", "path", "filelike"])
     else:
         how = rng.choice(["dir", "dir", "_metadata"])
     return {"sizes": sizes, "scheme": scheme, "part": part, "extra": extra, "index": index, "fab": fab, "open": how,
             "mod": [rng.choice([2, 3]), rng.choice([2, 3])], "tz": rng.choice(["US/Pacific", "Europe/Berlin", "UTC", "Asia/Kolkata"]),
+            "perm_seed": rng.randrange(1 << 30), "same_order": rng.random() < 0.15,
             "tunit": rng.choice(["us", "ns", "ms"]), "pn": rng.random() < 0.8,     # pandas_nulls on / off
             # several data pages per column chunk (offsets inside a row group's slice of the views), data page v1 / v2
             "page_size": rng.choice([None, None, 64, 200]), "dpv": rng.choice([1, 1, 2])}
@@ -154,7 +165,21 @@ def build_dataset(ds, root):
         if ds.get("page_size"):
             writer.MAX_PAGE_SIZE = ds["page_size"]
         writer.DATAPAGE_VERSION = ds.get("dpv", 1)
-        if ds["scheme"] == "simple":
+        if ds["scheme"] == "multi":
+            import random as _r
+            path = os.path.join(root, "ds")
+            os.makedirs(path)
+            pr = _r.Random(ds.get("perm_seed", 0))
+            kw.pop("row_group_offsets", None)
+            pos = 0
+            for i, sz in enumerate(ds["sizes"]):
+                part = df.iloc[pos:pos + sz]
+                pos += sz
+                cols = list(part.columns)
+                if i and not ds.get("same_order"):
+                    pr.shuffle(cols)            # the first file fixes the schema order; later files list their chunks differently
+                fastparquet.write(os.path.join(path, "part.%d.parquet" % i), part[cols], **kw)
+        elif ds["scheme"] == "simple":
             path = os.path.join(root, "ds.parquet")
             fastparquet.write(path, df, **kw)
         else:
@@ -190,6 +215,8 @@ def build_dataset(ds, root):
 def open_dataset(ds, path):
     import fastparquet
     kw = {"pandas_nulls": bool(ds.get("pn", True))}
+    if ds["open"] == "list":
+        return fastparquet.ParquetFile([os.path.join(path, "part.%d.parquet" % i) for i in range(len(ds["sizes"]))], **kw)
     if ds["open"] == "filelike":
         return fastparquet.ParquetFile(open(path, "rb"), **kw)
     if ds["open"] == "_metadata":
@@ -774,9 +801,18 @@ def base_facts(ds, pf):
     hyp = []
     try:
         # (through the handle: ParquetFile.__setstate__ decodes the file paths the thrift reader delivers as bytes)
-        if ds["open"] != "filelike" and not (list(pickle.loads(pickle.dumps(pf)).row_groups) == rgs):
+        def ser(l):
+            # (compared in serialised form: handles built from a list of files keep the file path as text in every chunk, the
+            #  thrift reader delivers bytes and __setstate__ decodes the one readers use - that of the first chunk)
+            return [bytes(x.to_bytes()) for x in l]
+        if ds["scheme"] == "multi":
+            if ds["open"] != "filelike" and ser(pickle.loads(pickle.dumps(pf)).row_groups) != ser(rgs):
+                hyp.append("pickle.loads(pickle.dumps(pf)).row_groups != pf.row_groups (serialised)")
+            if ser(copy.deepcopy(pf).row_groups) != ser(rgs):
+                hyp.append("copy.deepcopy(pf).row_groups != pf.row_groups (serialised)")
+        elif ds["open"] != "filelike" and not (list(pickle.loads(pickle.dumps(pf)).row_groups) == rgs):
             hyp.append("pickle.loads(pickle.dumps(pf)).row_groups != pf.row_groups")
-        if not (list(copy.deepcopy(pf).row_groups) == rgs):
+        if ds["scheme"] != "multi" and not (list(copy.deepcopy(pf).row_groups) == rgs):
             hyp.append("copy.deepcopy(pf).row_groups != pf.row_groups")
     except Exception as e:      # noqa
         hyp.append("round trip of the metadata raised %s: %s" % (type(e).__name__, e))
